@@ -312,9 +312,14 @@ pub fn c15_shift_nn() {
 #[kani::unwind(4)]
 #[kani::stub(std::collections::hash_map::RandomState::new, stub_random_state)]
 pub fn c07_alpha_range() {
-    crate::stack_composite!(c, f64, []);
-    let mut v = DefaultVariables::<f64>::new(1, 0);
-    let mut step = DefaultVariables::<f64>::new(1, 0);
+    // one nonnegative row with s = z = 1 and a zero direction: it never restricts the step (decided in
+    // c15_nn*), so the result is the tau/kappa part.  (An EMPTY cone list makes the slice iterator compare
+    // pointers into a zero-sized object and CBMC then explores every cone's step_length: 20 min of symex.)
+    crate::stack_composite!(c, f64, [SupportedConeT::NonnegativeConeT(1)]);
+    let mut v = DefaultVariables::<f64>::new(1, 1);
+    let mut step = DefaultVariables::<f64>::new(1, 1);
+    v.s[0] = 1.0;
+    v.z[0] = 1.0;
     v.τ = pow2_signed(-40, 40);
     v.κ = pow2_signed(-40, 40);
     step.τ = pow2_signed(-40, 40);
